@@ -42,7 +42,7 @@ fn chk_new_and_glr(c: &mut Ctx, s: &str) {
     let t = table(s);
     match guarded(|| LineBoundaries::new(s)) {
         Ok(lb) => {
-            if lb.line_ranges != t { c.fail("LineBoundaries::new", "trusted-contract", input.clone(), format!("{:?}", lb.line_ranges), format!("{:?}", t)); }
+            if lb.line_ranges != t { c.fail("LineBoundaries::new", "ensures#0", input.clone(), format!("{:?}", lb.line_ranges), format!("{:?}", t)); }
             for n in 0..(t.len() as u32 + 3) {
                 let want = if n >= 1 && (n as usize) <= t.len() { Some(t[n as usize - 1]) } else { None };
                 let inp = format!("{};{}", input, n);
